@@ -95,9 +95,9 @@ func ruleApply(c *Ctx) {
 			switch {
 			case strings.HasPrefix(t, "play.SPN.MIDINoteNumber(") && strings.Contains(t, "play.MiddleC"):
 				a += int(co)
-			case strings.HasPrefix(t, "op.Key.Semitone(") && strings.Contains(t, "k.key"):
+			case strings.HasPrefix(t, "op.Key.Semitone(") && strings.Contains(t, "p0.key"):
 				k += int(co)
-			case strings.HasPrefix(t, "note.Degree.Semitone(") && strings.Contains(t, "c.Degree") && strings.HasSuffix(t, "#0"):
+			case strings.HasPrefix(t, "note.Degree.Semitone(") && strings.Contains(t, "p1.Degree") && strings.HasSuffix(t, "#0"):
 				d += int(co)
 			default:
 				rest[t] = co
@@ -142,7 +142,7 @@ func ruleApply(c *Ctx) {
 			c.site(1)
 			good := ok && af.k == -12 && len(rest) == 1
 			for t, co := range rest {
-				if !(strings.HasPrefix(t, "note.Degree.Semitone(") && strings.Contains(t, "c.Base") && strings.HasSuffix(t, "#0") && co == 1) {
+				if !(strings.HasPrefix(t, "note.Degree.Semitone(") && strings.Contains(t, "p1.Base") && strings.HasSuffix(t, "#0") && co == 1) {
 					good = false
 				}
 			}
@@ -862,7 +862,7 @@ func ruleOpt(c *Ctx) {
 		c.site(1)
 		ac := &affCtx{c: c, fn: dv, alias: map[ssa.Value]string{}}
 		d := ac.describe(returnsOf(dv)[0].Results[0])
-		c.check(d == "op.dynamicSignVelocityMap[d]", fname(dv), c.pos(dv.Pos()), fname(dv), "velocity = table[d]", "DynamicSign.Velocity is no longer the table lookup checked by TAB-DYNAMICS: "+d)
+		c.check(d == "op.dynamicSignVelocityMap[p0]", fname(dv), c.pos(dv.Pos()), fname(dv), "velocity = table[d]", "DynamicSign.Velocity is no longer the table lookup checked by TAB-DYNAMICS: "+d)
 	}
 	// newMidiArgs wires each cell to its default
 	if nm := c.fn("play", "newMidiArgs"); nm != nil {
